@@ -519,15 +519,12 @@ def run(ctx, proofs):
         "the parser is outside the mirror: the model is fed the AST the real parser produced (printed by the harness before desugaring)",
         "codespan's line index is modelled as 'number of line starts <= offset'; line starts are computed from the source text by the driver",
         "end-to-end equality of findings (oracle ii) is observed on %d sugared/expanded pairs, not proved" % len(e2e),
-        "desugar_refines_expand, desugar_errors_exact are open statements: observed by the "
-        "correspondence (expand_spec equal to the implementation on every accepted template), not proved",
+        "the hypotheses of the panic-freedom and faithfulness theorems (wf_template: metas with a known file id, log strings <= 230 bytes, "
+        "one name per named input, block bodies) are checked on the real parser's output of every explored program, not proved about the parser",
     ]
 
 
-OPEN = [
-    {"name": "C18_desugar_refines_expand_full_statement", "reason": "refinement proof not attempted in the time box; observed equal on every accepted template of the matrix"},
-    {"name": "C18_desugar_errors_exact_full_statement", "reason": "not attempted; the report sets are compared exactly by the correspondence run"},
-]
+OPEN = []   # every statement of DESIGN §4 C18 is now a theorem of coq/props/C18.v
 
 
 def replay(ctx, rep):
